@@ -197,11 +197,16 @@ theorem tie (U : Cache.Unsupported) (binary hash : Str) (w : World) :
       generalize fileClose f w3 = c
       obtain ⟨errc, w4⟩ := c
       dsimp only
-      by_cases h3 : (err3 = GoErr.nil ∧ n = buf.length) ∧ hash = buf
-      · simp [h3]
-      · simp only [h3, decide_false, if_true, if_false, Bool.false_eq_true]
-        store_path
-    · simp only [h2, if_false, Bool.false_eq_true]
+      -- the three facts the cache test consists of, one by one (however the source combines them)
+      by_cases ha : err3 = GoErr.nil <;> by_cases hb : n = buf.length <;> by_cases hc : hash = buf <;>
+        (have hc' : (buf = hash) = (hash = buf) := propext ⟨Eq.symm, Eq.symm⟩
+         simp only [ha, hb, hc, hc', and_true, true_and, and_false, false_and, not_true_eq_false, not_false_eq_true,
+           or_false, false_or, or_true, true_or, if_true, if_false, decide_true, decide_false, decide_eq_true_eq,
+           Bool.false_eq_true, ne_eq]
+         store_path)
+    · simp only [h2, if_false, if_true, Bool.false_eq_true, not_false_eq_true, not_true_eq_false, ne_eq]
+      try dsimp only
+      try simp only [Bool.false_eq_true, if_false, if_true, not_true_eq_false, not_false_eq_true, ne_eq]
       store_path
   · first
     | rfl
